@@ -139,10 +139,13 @@ func (c *vfQRun) render(max int) []string {
 // generator restriction so that the behaviour outside an operation's production
 // precondition can be demonstrated. Never set by the driver; a run with a probe
 // is not a verdict on the property.
-//   restructure-any   Restructuring also when it releases two or more nodes
-//   long-restructure-any  restructuringLong*Queue at arbitrary moments
-//   rellac-nonempty   Rellac on a non-empty deque (modelled as clear)
-//   shrink            Shrink(0) as an identity operation
+//
+//	restructure-any   Restructuring also when it releases two or more nodes
+//	long-restructure-any  restructuringLong*Queue at arbitrary moments
+//	rellac-nonempty   Rellac on a non-empty deque (modelled as clear)
+//	shrink            Shrink(0) as an identity operation
+//	no-directed       cases 0 and 1 are ordinary PRNG cases instead of the directed
+//	                  long-queue sequence (shows the verdict of the PRNG cases alone)
 func vfC20Probe(name string) bool {
 	for _, p := range strings.Split(os.Getenv("VERIF_C20_PROBE"), ",") {
 		if p == name {
@@ -1697,10 +1700,12 @@ func vfLongCase(c *vfQRun, rng *vfRand, db *LockDB) {
 		q := table[T]
 		holes := int64(0)
 		restructured := false
+		allocBefore := 0
 		if q != nil {
 			fc, lc := q.freeCount+1, q.lockCount
 			restructured = fc*3 >= lc && (fc >= lc || fc >= thr)
 			holes = int64(fc)
+			allocBefore = vfAllocNodes(&q.locks)
 		}
 		if !small {
 			if expiry {
@@ -1708,16 +1713,21 @@ func vfLongCase(c *vfQRun, rng *vfRand, db *LockDB) {
 			} else {
 				db.RemoveLongTimeOut(l)
 			}
+			if restructured && vfAllocNodes(&q.locks) < allocBefore {
+				c.add("long_restructure_released_nodes_production_triple", 1)
+			}
 		} else {
 			// RemoveLongTimeOut / RemoveLongExpried with the threshold scaled
 			q.Remove(l)
-			if q.freeCount*3 >= q.lockCount && (q.freeCount >= q.lockCount || q.freeCount >= thr) {
-				if os.Getenv("VERIF_C20_DEBUG") != "" {
-					fmt.Printf("DBG restructure: lockCount=%d freeCount=%d head=(%d,%d) tail=(%d,%d) nodeIndex=%d sizes=%v\n", q.lockCount, q.freeCount, q.locks.headNodeIndex, q.locks.headQueueIndex, q.locks.tailNodeIndex, q.locks.tailQueueIndex, q.locks.nodeIndex, q.locks.nodeQueueSizes)
-					defer func() {
-						fmt.Printf("DBG   after: tail=(%d,%d) nodeIndex=%d sizes=%v\n", q.locks.tailNodeIndex, q.locks.tailQueueIndex, q.locks.nodeIndex, q.locks.nodeQueueSizes)
-					}()
-				}
+			if restructured && vfWouldReleaseNodes(&q.locks, int32(len(M)-1)) && !vfC20Probe("long-restructure-any") {
+				// the node-release path of restructuringLong*Queue leaves nodeIndex
+				// stale (reported by the directed production-triple case); with the
+				// short node tables of scaled-down triples it would crash the next
+				// Reset within a few steps, so random scaled cases stay off it
+				restructured = false
+				c.add("long_restructure_skipped_would_release_nodes", 1)
+			}
+			if restructured {
 				if expiry {
 					db.restructuringLongExpriedQueue(q)
 				} else {
@@ -1863,6 +1873,200 @@ func vfLongCase(c *vfQRun, rng *vfRand, db *LockDB) {
 		c.fail("server-error-log", "the server logged an internal inconsistency: %s", l)
 	}
 	c.add("cases_"+c.kind, 1)
+}
+
+func vfAllocNodes(q *LockQueue) int {
+	n := 0
+	for _, node := range q.queues {
+		if node != nil {
+			n++
+		}
+	}
+	return n
+}
+
+// vfWouldReleaseNodes: would a restructure that keeps `live` elements end two
+// or more nodes below the current tail node (and so enter its release loop)?
+func vfWouldReleaseNodes(q *LockQueue, live int32) bool {
+	newTail, cum := int32(0), int32(0)
+	for j := int32(0); j <= q.tailNodeIndex && int(j) < len(q.nodeQueueSizes); j++ {
+		cum += q.nodeQueueSizes[j]
+		if live < cum {
+			newTail = j
+			break
+		}
+		newTail = j + 1
+	}
+	return q.tailNodeIndex > newTail+1
+}
+
+// vfLongDirectedCase: a directed sequence of production calls only
+// (AddTimeOut/AddExpried, RemoveLongTimeOut/RemoveLongExpried, the drain of
+// checkTimeTimeOut/checkTimeExpried) on the production triple (4,64,256): one
+// deadline second whose population first grows to 3000, falls to 200 and then
+// churns (N new requests arrive, the N newest leave) 60 times around ~3250
+// live requests. Contents must stay those of the model and the final drain
+// must recycle the queue.
+func vfLongDirectedCase(c *vfQRun, db *LockDB, expiry bool) {
+	c.kind = "long-timeout-directed"
+	if expiry {
+		c.kind = "long-expiry-directed"
+	}
+	c.params = "base=4 nodes=64 size=256 (production triple, production calls only)"
+	mgr := vfC20Manager(db)
+	pool := db.freeLongWaitQueues[0]
+	for pool.Pop() != nil {
+	}
+	_ = vfLogCapture.Take()
+	vfC20TimeBase += 10
+	T := db.currentTime + 100000 + vfC20TimeBase
+	table := db.longTimeoutLocks[0]
+	if expiry {
+		table = db.longExpriedLocks[0]
+	}
+	var M []*Lock
+	push := func(n int) {
+		c.op(vfqLongPush, n)
+		for i := 0; i < n; i++ {
+			l := vfNewRecord(mgr, &protocol.LockCommand{Timeout: 600, Expried: 600})
+			l.isAof, l.aofTime, l.refCount = true, 0xff, 2
+			if expiry {
+				l.expriedCheckedCount, l.expriedTime = EXPRIED_QUEUE_MAX_WAIT+1, T
+				db.AddExpried(l)
+			} else {
+				l.timeoutCheckedCount, l.timeoutTime = TIMEOUT_QUEUE_MAX_WAIT+1, T
+				db.AddTimeOut(l)
+			}
+			M = append(M, l)
+		}
+	}
+	removeNewest := func(n int) {
+		c.op(vfqLongRemove, n)
+		for i := 0; i < n && len(M) > 0; i++ {
+			l := M[len(M)-1]
+			M = M[:len(M)-1]
+			if expiry {
+				db.RemoveLongExpried(l, T)
+			} else {
+				db.RemoveLongTimeOut(l)
+			}
+		}
+	}
+	content := func(where string) bool {
+		q := table[T]
+		if q == nil {
+			c.fail(where+"-table", "the long queue of the deadline second is gone with %d live entries", len(M))
+			return false
+		}
+		k := 0
+		for i := range q.locks.IterNodes() {
+			for _, l := range q.locks.IterNodeQueues(int32(i)) {
+				if l == nil {
+					continue
+				}
+				if k >= len(M) || M[k] != l {
+					c.fail(where+"-iter", "live entry %d of the iteration is not model[%d]", k, k)
+					return false
+				}
+				k++
+			}
+		}
+		if k != len(M) || int(q.lockCount-q.freeCount) != len(M) {
+			c.fail(where+"-iter", "iteration yields %d live entries, lockCount-freeCount=%d, model holds %d", k, q.lockCount-q.freeCount, len(M))
+			return false
+		}
+		return true
+	}
+	push(3000)
+	removeNewest(2800)
+	if !content("setup") {
+		return
+	}
+	q := table[T]
+	leaks, pushed, removed := 0, 0, 0
+	for cyc := 0; cyc < 60 && !c.failed; cyc++ {
+		// push one by one until the tail is 6 slots into node 5
+		n := 0
+		for (q.locks.tailNodeIndex < 5 || q.locks.tailQueueIndex < 6) && n < 20000 {
+			l := vfNewRecord(mgr, &protocol.LockCommand{Timeout: 600, Expried: 600})
+			l.isAof, l.aofTime, l.refCount = true, 0xff, 2
+			if expiry {
+				l.expriedCheckedCount, l.expriedTime = EXPRIED_QUEUE_MAX_WAIT+1, T
+				db.AddExpried(l)
+			} else {
+				l.timeoutCheckedCount, l.timeoutTime = TIMEOUT_QUEUE_MAX_WAIT+1, T
+				db.AddTimeOut(l)
+			}
+			M = append(M, l)
+			n++
+		}
+		c.op(vfqLongPush, n)
+		pushed += n
+		lc := q.lockCount
+		m := 0
+		for m < 20000 && q.lockCount >= lc && len(M) > 0 { // until the production trigger rule restructures
+			l := M[len(M)-1]
+			M = M[:len(M)-1]
+			if expiry {
+				db.RemoveLongExpried(l, T)
+			} else {
+				db.RemoveLongTimeOut(l)
+			}
+			m++
+		}
+		c.op(vfqLongRemove, m)
+		removed += m
+		if !content(fmt.Sprintf("cycle%d", cyc)) {
+			return
+		}
+		top := 0
+		for i, node := range q.locks.queues {
+			if node != nil {
+				top = i
+			}
+		}
+		if int(q.locks.nodeIndex) > top {
+			leaks++
+			c.nontriv = true
+		}
+	}
+	c.add("long_directed_cycles_with_stale_nodeindex", int64(leaks))
+	nodeIndex, tableLen := q.locks.nodeIndex, len(q.locks.queues)
+	// the production drain at the deadline second
+	func() {
+		defer func() {
+			if r := recover(); r != nil {
+				c.add("long_directed_drain_panics", 1)
+				c.fail("drain-recycle-panic", "production triple (4,64,256), production calls only: Add x3000, RemoveLong(newest) x2800, then 60 rounds of [Add until the tail is 6 slots into node 5; RemoveLong(newest) until the trigger rule restructures] (%d + %d calls in the rounds, %d live requests of one deadline second at the end); the restructure of a round ends two nodes lower and releases node 5 without lowering nodeIndex, the regrowth re-allocates node 5 and raises nodeIndex again: %d rounds left it stale, nodeIndex=%d with a node table of %d. The drain of the deadline second (checkTimeTimeOut/checkTimeExpried -> FreeLongWaitLockQueue -> LockQueue.Reset) then panics: %v (in production on a sweeper goroutine without recover, shard mutex held)", pushed, removed, len(M), leaks, nodeIndex, tableLen, r)
+			}
+		}()
+		c.op(vfqLongDrain, len(M))
+		cnt := q.Len()
+		k := 0
+		for cnt > 0 {
+			if l := q.Pop(); l != nil {
+				if k >= len(M) || M[k] != l {
+					c.fail("drain", "the Len()-bounded drain yields a wrong entry at live position %d", k)
+					return
+				}
+				k++
+			}
+			cnt--
+		}
+		if k != len(M) {
+			c.fail("drain", "the Len()-bounded drain yields %d live entries, %d expected", k, len(M))
+			return
+		}
+		delete(table, T)
+		pool.FreeLongWaitLockQueue(q, db.currentTime)
+	}()
+	delete(table, T)
+	for pool.Pop() != nil {
+	}
+	for _, l := range vfLogCapture.Take() {
+		c.fail("server-error-log", "the server logged an internal inconsistency: %s", l)
+	}
+	c.add("cases_long_directed", 1)
 }
 
 // ---------------------------------------------------------------- free pools of long / millisecond queues
@@ -2113,6 +2317,8 @@ func vfC20Case(env *vfEnv, part *vfPart, i int) {
 	}()
 	k := rng.Intn(100)
 	switch {
+	case i < 2 && !vfC20Probe("no-directed"):
+		vfLongDirectedCase(c, vfC20DB(env), i == 1)
 	case k < 46:
 		vfSegCase(c, rng)
 	case k < 60:
@@ -2142,7 +2348,11 @@ func vfC20Case(env *vfEnv, part *vfPart, i int) {
 		doc := map[string]interface{}{"case": i, "seed": env.Seed, "tier": env.Tier, "property": "C20", "kind": c.kind, "params": c.params,
 			"clause": c.clause, "detail": c.detail, "ops": c.render(6000)}
 		rp := vfWriteReplay(env, fmt.Sprintf("case%d.json", i), doc)
-		part.Violate(vfViolation{Prop: "C20", Clause: c.clause, Detail: c.detail, Case: i, Replay: rp, Sig: c.clause})
+		sig := c.clause
+		if strings.HasSuffix(c.clause, "-directed/drain-recycle-panic") {
+			sig = "long-queue-restructure-leaves-nodeindex-stale:reset-panics"
+		}
+		part.Violate(vfViolation{Prop: "C20", Clause: c.clause, Detail: c.detail, Case: i, Replay: rp, Sig: sig})
 	}
 	done = true
 }
@@ -2157,13 +2367,14 @@ func TestVerif_C20(t *testing.T) {
 		return // shard child
 	}
 	spec := &vfSpec{Prop: "C20", Level: "exploration",
-		Rule: "case i = PRNG operation sequence splitmix(seed,'C20',i) of 30-2000 steps (bursts up to twice the current node size; up to 14000 steps for production-sized nodes; rare 70000-step holder slides) run against one real queue and a slice model: LockQueue / LockCommandQueue / LockManagerQueue over (base 1-4, nodes 1-8, size 1-8) and the production triples (full size or node size scaled down), the per-key holder queue through LockManager.AddLock/RemoveLock/GetLockedLock, the per-key wait queue through LockManager.AddWaitLock/GetWaitLock, the stand-alone ring and priority ring, long wait queues through LockDB.AddTimeOut/AddExpried/RemoveLongTimeOut/RemoveLongExpried and the Len()-bounded drain, and the long / millisecond queue pools; every returned element (pointer identity), Len, Head, Tail, MaxPriority and the iterated content are compared; non-trivial = the case crossed a node boundary or took a representation switch (inline growth, inline->scale, inline->ring, FIFO->priority, ring growth/compaction, effective Resize, restructure with holes); distinct = hash of kind, parameters and operation list",
+		Rule:       "case i = PRNG operation sequence splitmix(seed,'C20',i) of 30-2000 steps (bursts up to twice the current node size; up to 14000 steps for production-sized nodes; rare 70000-step holder slides) run against one real queue and a slice model: LockQueue / LockCommandQueue / LockManagerQueue over (base 1-4, nodes 1-8, size 1-8) and the production triples (full size or node size scaled down), the per-key holder queue through LockManager.AddLock/RemoveLock/GetLockedLock, the per-key wait queue through LockManager.AddWaitLock/GetWaitLock, the stand-alone ring and priority ring, long wait queues through LockDB.AddTimeOut/AddExpried/RemoveLongTimeOut/RemoveLongExpried and the Len()-bounded drain, and the long / millisecond queue pools; every returned element (pointer identity), Len, Head, Tail, MaxPriority and the iterated content are compared; non-trivial = the case crossed a node boundary or took a representation switch (inline growth, inline->scale, inline->ring, FIFO->priority, ring growth/compaction, effective Resize, restructure with holes); distinct = hash of kind, parameters and operation list",
 		NontrivSet: "nontrivial",
 		Assumptions: []string{
 			"Shrink is never generated: it has no caller in the repository and releases the head node itself (the node holding the oldest elements), so no state exists in which it is an identity on a non-empty deque",
 			"Rellac is generated only on an empty deque (its production precondition: every caller runs it right after a Pop-until-nil drain); there it must be a no-op on contents",
 			"LockQueue/LockCommandQueue/LockManagerQueue.Restructuring has no production caller; it is generated in every state (after pops from either end, PushLeft, Resize, Reset, holes) except those where it would release two or more nodes, the path its production siblings restructuringLongTimeOutQueue/restructuringLongExpriedQueue can never take because their trigger rule (holes*3 >= pushes and holes >= initial node size or everything removed) shrinks the content by at most one node; skipped calls are counted in seg_restructure_skipped_would_release_nodes",
-			"long wait queues: restructuringLong*Queue runs only under the production trigger rule (real RemoveLongTimeOut/RemoveLongExpried for the production triple (4,64,256); for scaled-down triples the same rule with the threshold scaled to the initial node size); Len() is only required to bound the drain loop (it counts holes), lockCount-freeCount is the live count",
+			"long wait queues: restructuringLong*Queue runs only under the production trigger rule: real RemoveLongTimeOut/RemoveLongExpried for the production triple (4,64,256); for scaled-down triples (placed in the LockDB table, fed by the real AddTimeOut/AddExpried) the same rule with the threshold scaled to the initial node size, and not when the restructure would release nodes (that path leaves nodeIndex stale, which with the short node tables of scaled triples crashes the next Reset within a few steps; it is covered with the production triple by the directed cases 0 and 1); Len() is only required to bound the drain loop (it counts holes), lockCount-freeCount is the live count",
+			"cases 0 (timeout) and 1 (expiry) are directed, not PRNG: production calls only on the production triple, one deadline second growing to 3000, falling to 200, then 60 churn rounds around ~3250 live requests, then the sweeper's drain and recycle",
 			"holder and wait queues are driven through the LockManager methods that own them; Reset is generated only when no record is left (RemoveLockManager precondition); LockIds are unique among live holders (client contract) but the id of a released holder may be reused while its record is still queued",
 			"holes are made the way production makes them: by clearing a slot inside the slice returned by IterNodeQueues (or LongWaitLockQueue.Remove); a hole is a nil element of the model until a restructure drops it",
 			"PushLeft may refuse with its 'full' error (the model then does nothing); Reset is modelled as clear and is also generated on non-empty deques (2% of mixed-profile steps)",
